@@ -187,6 +187,25 @@ def run(ctx):
         tr, bindable, res = record_tt_sampler(Y, m, 'sq', int(rng.integers(1 << 30)), unique=True)
         trs.append(tr)
         metas.append(dict(kind='sq', n=n, r=4, m=m, unique=True, peaked=True))
+    # chains with more than 2^53 multi-indices (60 binary modes, 12 modes of size 64): the tensor is the sum of two rank-one
+    # deltas a, b that agree on all but the last few modes plus a coupling of rank 2; every drawn row must be a or b
+    # (all other entries are exactly zero), and both must occur
+    for t, (d_, nk) in enumerate([(60, 2), (58, 2), (12, 64), (70, 2)] if quick else [(60, 2), (58, 2), (12, 64), (70, 2), (64, 3), (30, 16), (120, 2)]):
+        a_idx = [int(rng.integers(nk)) for _ in range(d_)]
+        b_idx = list(a_idx)
+        for k_ in range(d_ - 4, d_):
+            b_idx[k_] = (a_idx[k_] + 1) % nk
+        Da = F.delta_tt([nk] * d_, a_idx, 1.0)
+        Db = F.delta_tt([nk] * d_, b_idx, -1.3)
+        Yl = F.tt_add(Da, Db)
+        m_ = 40
+        res = np.asarray(teneva.sample_square(Yl, m_, unique=False, seed=100 + t))
+        okl = res.shape == (m_, d_) and res.dtype.kind in 'iu'
+        rows = set(tuple(int(x) for x in row) for row in res) if okl else set()
+        ctx.case(key=('long-chain', d_, nk), nontrivial=True)
+        ctx.check(okl and rows <= {tuple(a_idx), tuple(b_idx)} and len(rows) == 2, 'sample_square:long-chain',
+                  'sample_square on a sum of two deltas with %d modes of size %d: %d distinct rows drawn, %d of them with probability zero'
+                  % (d_, nk, len(rows), len(rows - {tuple(a_idx), tuple(b_idx)})))
     ctx.notes['executions_whose_choice_calls_could_not_be_bound'] = unbound
     # Latin hypercube counts for every (mode size, m) in a rectangle (exhaustive: the rule is arithmetic in m and n_k)
     for nk in range(1, 13 if quick else 33):
